@@ -67,7 +67,12 @@ def circ_failure(cy, cx, H, W, radius):
 def fv_failure(desc, H, W, peaks):
     pattern = cl.pattern_from_desc(desc)
     c = pattern.get_crop_size()
-    st = np.asarray(pat.feature_vector(imageSizeX=W, imageSizeY=H, peaks=np.asarray(peaks), match_pattern=pattern).todense(), dtype=np.float64)
+    pk = np.asarray(peaks, dtype=np.int64)
+    pk0 = pk.copy()
+    pat.feature_vector(imageSizeX=W, imageSizeY=H, peaks=pk, match_pattern=pattern)          # an earlier call with the same array
+    if not np.array_equal(pk, pk0):
+        return 'feature_vector modified the peaks array passed in: %s -> %s' % (pk0.tolist(), pk.tolist())
+    st = np.asarray(pat.feature_vector(imageSizeX=W, imageSizeY=H, peaks=pk, match_pattern=pattern).todense(), dtype=np.float64)
     m = np.asarray(pattern.get_mask((2 * c + 1, 2 * c + 1)), dtype=np.float64)
     if st.shape != (len(peaks), H, W):
         return 'feature_vector stack shape %s' % (st.shape,)
